@@ -1,10 +1,14 @@
 (* Properties/C09.v — The cursor-style reader is a faithful state machine over the message.
-   The full refinement statement (every item, error and count of every conforming script equals
-   the abstract linear-pass reader of Spec/LinearPass.v) is NOT proved yet: it is decided by the
-   scripts stream, where the extracted abstract reader is the oracle (DESIGN.md §5 C09).
-   Proved: the error/exhaustion latch. *)
+   Proved: (1) the error/exhaustion latch; (2) the SECTION TRACKER — counters, lazy section
+   offsets, seek — refines the counting machine of Spec/LinearPass.v for every sequence of
+   sequential reads and seeks, whatever the offsets of the items are.
+   Not proved: that the reader drives the tracker with the offsets of the items the linear pass
+   parses (the composition of (2) with the parsers, i.e. every returned item of every conforming
+   script): that part is decided by the scripts stream, where the extracted abstract reader is
+   the oracle (DESIGN.md 5 C09 and 12). *)
 From RsdnsModel Require Import Base Cursor Names Labels Header Tracker RData Reader.
-From RsdnsModel.Proofs Require Import Latch.
+From RsdnsModel.Spec Require Import LinearPass.
+From RsdnsModel.Proofs Require Import Latch TrackerRefine.
 Open Scope N_scope.
 
 (* after the first decode error (or exhaustion) the reader stays exhausted: every sequential call
@@ -25,3 +29,66 @@ Theorem C09_error_latches_partial : forall msg r, r_done r = false ->
   (forall nk, is_ok (snd (rd_header_n msg nk r)) = false -> r_done (fst (rd_header_n msg nk r)) = true) /\
   (is_ok (snd (rd_skip_questions msg r)) = false -> r_done (fst (rd_skip_questions msg r)) = true).
 Proof. exact error_latches. Qed.
+
+(* ---- the section tracker refines the linear pass ----
+   A message announces nq questions and an/ns/ar records; its items (questions, then records, in
+   wire order) start at offsets P 0, P 1, ... (any offsets in 1..65535: every message
+   MessageReader::new accepts).  [Inv tr idx hw]: tracker [tr] represents "next item idx,
+   high-water mark hw": question/section counters as the counts prescribe, offset of section s
+   = P (first item of s) if LinearPass.known says it is known, else unset.
+   [allowed]: the operations the documented protocol allows from (idx, hw) — read a question, read
+   a record (marker call + data call), seek to a section whose offset is known — and where the
+   linear pass says they lead.  For EVERY such sequence the tracker succeeds and represents the
+   prescribed state. *)
+Theorem C09_tracker_refines : forall nq an ns ar P,
+  nq <= 65535 -> an <= 65535 -> ns <= 65535 -> ar <= 65535 -> (forall k, 1 <= P k <= 65535) ->
+  forall ops tr idx hw idx' hw',
+  Inv nq an ns ar P tr idx hw -> allowed nq an ns ar ops idx hw = Some (idx', hw') ->
+  exists tr', run_t nq an ns ar P ops tr idx hw = Some (tr', idx', hw') /\ Inv nq an ns ar P tr' idx' hw'.
+Proof. exact tracker_refines. Qed.
+
+(* the tracker built from the header represents the start of the pass *)
+Theorem C09_tracker_init : forall nq an ns ar P,
+  nq <= 65535 -> an <= 65535 -> ns <= 65535 -> ar <= 65535 -> (forall k, 1 <= P k <= 65535) ->
+  forall h, h_qd h = nq -> h_an h = an -> h_ns h = ns -> h_ar h = ar -> Inv nq an ns ar P (tr_set tr_default h) 0 0.
+Proof. exact inv_init_set. Qed.
+
+(* in every represented state the remaining-counts are those of the linear pass *)
+Theorem C09_counts : forall nq an ns ar P,
+  nq <= 65535 -> an <= 65535 -> ns <= 65535 -> ar <= 65535 -> (forall k, 1 <= P k <= 65535) ->
+  forall tr idx hw, Inv nq an ns ar P tr idx hw ->
+  questions_left tr = Ok (nq - N.min idx nq) /\
+  records_left_in tr 0 = Ok (an - rd nq an ns ar idx 0) /\ records_left_in tr 1 = Ok (ns - rd nq an ns ar idx 1) /\
+  records_left_in tr 2 = Ok (ar - rd nq an ns ar idx 2) /\
+  records_left tr = Ok ((an - rd nq an ns ar idx 0) + (ns - rd nq an ns ar idx 1) + (ar - rd nq an ns ar idx 2)).
+Proof. exact counts_spec. Qed.
+
+(* seek succeeds exactly when the documentation says the offset is known, and positions at the
+   first record of the section (for an empty one: of the next non-empty one, or the end) *)
+Theorem C09_seek : forall nq an ns ar P,
+  nq <= 65535 -> an <= 65535 -> ns <= 65535 -> ar <= 65535 -> (forall k, 1 <= P k <= 65535) ->
+  forall tr idx hw s, Inv nq an ns ar P tr idx hw -> s < 3 ->
+  (known (lin nq an ns ar) (mkA idx hw false None) s = true ->
+     section_offset tr s = Some (P (nq + sec_start (lin nq an ns ar) s)) /\
+     Inv nq an ns ar P (tr_seek tr s) (nq + sec_start (lin nq an ns ar) s) hw) /\
+  (known (lin nq an ns ar) (mkA idx hw false None) s = false -> section_offset tr s = None).
+Proof. exact seek_step. Qed.
+
+(* a record is attributed to the section the counts prescribe *)
+Theorem C09_record_section : forall nq an ns ar P,
+  nq <= 65535 -> an <= 65535 -> ns <= 65535 -> ar <= 65535 -> (forall k, 1 <= P k <= 65535) ->
+  forall tr idx hw, Inv nq an ns ar P tr idx hw -> nq <= idx -> idx < nq + nrec (lin nq an ns ar) ->
+  let s := section_of (lin nq an ns ar) (idx - nq) in
+  exists tr1, next_section tr (P idx) = (tr1, Some s) /\
+    exists tr', section_read tr1 s (P (idx + 1)) = Ok tr' /\ Inv nq an ns ar P tr' (idx + 1) (N.max hw (idx + 1)).
+Proof. exact record_step. Qed.
+
+(* non-vacuity: 1 question, 2 answers, no authority, 1 additional; read everything up to the
+   additional record, seek back to the answers, read one, seek to the (empty) authority section,
+   which is the additional record, read it *)
+Example C09_tracker_example :
+  allowed 1 2 0 1 [TQuestion; TRecord; TRecord; TSeek 0; TRecord; TSeek 1; TRecord] 0 0 = Some (4, 4) /\
+  allowed 1 2 0 1 [TQuestion; TSeek 1] 0 0 = None /\
+  exists tr, run_t 1 2 0 1 (fun k => 12 + 20 * k) [TQuestion; TRecord; TRecord; TSeek 0; TRecord; TSeek 1; TRecord]
+                   (tr_set tr_default (mkHeader 7 0 1 2 0 1)) 0 0 = Some (tr, 4, 4).
+Proof. vm_compute. split; [reflexivity|]. split; [reflexivity|]. eexists. reflexivity. Qed.
